@@ -4,8 +4,8 @@ import os, json
 NAMESPACE = 'C20'
 LEAN_TARGETS = ['MxV.Props.C20']
 THEOREMS = ['complex_publish_after_fill', 'group_publish_after_fill', 'attribute_tables_thread_safe', 'class_cells_known',
-            'class_mutables_known', 'no_provisional_publication']
-TRUSTED_BASE = ['Lean 4.33.0 kernel', 'axioms: propext, Quot.sound only',
+            'class_mutables_known', 'no_provisional_publication', 'stepTh_remaining', 'rem_run', 'attribute_tables_progress']
+TRUSTED_BASE = ['Lean 4.33.0 kernel', 'axioms: propext, Quot.sound, Classical.choice only (audited per theorem)',
                 'extract/shapes.py (AST -> statements of the two lazily filled get_xsd_attributes, inventory of class-level cells and mutable class attributes)',
                 "CPython's GIL: pre-emption at line granularity as exercised through sys.settrace; list/dict primitives atomic",
                 'fork-per-schedule harness (every schedule starts from the import-time state of the lazily initialised tables)']
